@@ -14,8 +14,11 @@ inductive Ev where
   | consumed (k : Nat)       -- the reader took k bytes out of the input buffer
   | fired                    -- the read timer expired
   | tickTaken (len : Nat)    -- the reader's select took the timer case; `len` = bytes buffered at that moment (as published by the poller)
-  | peerClose                -- the hang-up won closeBy(poller)
-  | userClose                -- a user Close() won closeBy(user) or forced closing := user
+  | peerClose (len : Nat)    -- the hang-up won closeBy(poller); `len` = bytes buffered at that moment (as published by the poller)
+  | userClose (len : Nat)    -- a user Close() won closeBy(user) or forced closing := user; `len` as above
+  | dataTrigger (len : Nat)  -- the poller's inputAck put the data wake-up (nil) into the free trigger slot; `len` = bytes buffered then
+  | errTrigger               -- a closer (hang-up, user Close) put its error into the free trigger slot
+  | slotTaken                -- the reader's receive / select took the value in the trigger slot
   | panic (who : String)
   deriving Repr
 
@@ -43,6 +46,13 @@ structure Acc where
   lenAtTick : Option Nat := none
   peer : Bool := false
   user : Bool := false
+  -- bytes that were buffered when the connection was closed (first close) and that the reader has not consumed since:
+  -- a lower bound of what every later look at the buffer finds ("n bytes were buffered BEFORE the close")
+  availAtClose : Option Nat := none
+  -- the trigger slot holds a data wake-up that was sent when so many (since unconsumed) bytes were buffered
+  slotData : Option Nat := none
+  -- this call received such a wake-up: from then on so many bytes are there whenever it looks
+  wokenBy : Option Nat := none
   errs : List String := []
   deriving Repr
 
@@ -50,20 +60,38 @@ def timed (m : String) : Bool := m == "t" || m == "d"
 
 def bad (a : Acc) (msg : String) : Acc := { a with errs := a.errs ++ [s!"C07 call {a.idx} ({a.op}{a.n}{a.mode}): {msg}"] }
 
+/-- "A Reader call that needs n bytes returns successfully once n bytes are buffered; if the connection closes FIRST it
+returns ErrEOF / ErrConnClosed" – judged for a BLOCKED reader: the call received the data wake-up that the poller sent when
+its n bytes were buffered (`wokenBy ≥ n`), those bytes were buffered before the connection closed (`availAtClose ≥ n`) and
+are still there at the return (`len`), yet the call fails.  (For a reader that is RUNNING between its look at the length and
+its look at `closing` while the n-th byte and the close arrive the text is not decidable from the reader's observations;
+the unchanged code returns the close error there with Len() ≥ n – reported as a finding candidate, not judged here.) -/
+def wokenThenError (a : Acc) (err : String) (len : Nat) : Acc :=
+  match a.wokenBy, a.availAtClose with
+  | some w, some v =>
+      if w ≥ a.n && v ≥ a.n && len ≥ a.n then
+        bad a s!"{err} although the reader had been woken by the delivery of its bytes: {v} bytes were buffered before the close (Len() = {len} at the return)"
+      else a
+  | _, _ => a
+
 def onEv (a : Acc) : Ev → Acc
   | .call idx op n mode _ =>
       { a with inCall := true, idx := idx, op := op, n := n, mode := mode, firstLen := none, lastLen := none,
-               decided := false, frozen := false, consumed := 0, fired := false, lenAtTick := none }
+               decided := false, frozen := false, consumed := 0, fired := false, lenAtTick := none, wokenBy := none }
   | .lenSeen v =>
       if a.inCall && !a.frozen then { a with firstLen := a.firstLen.orElse (fun _ => some v), lastLen := some v } else a
   | .decided => { a with decided := true, frozen := true }
-  | .consumed k => { a with consumed := a.consumed + k, frozen := true }
+  | .consumed k => { a with consumed := a.consumed + k, frozen := true, availAtClose := a.availAtClose.map (· - k),
+                            slotData := a.slotData.map (· - k), wokenBy := a.wokenBy.map (· - k) }
   | .fired => { a with fired := true }
   | .tickTaken len => { a with lenAtTick := some len }
-  | .peerClose => { a with peer := true }
-  | .userClose => { a with user := true }
+  | .peerClose len => { a with peer := true, availAtClose := a.availAtClose.orElse (fun _ => some len) }
+  | .userClose len => { a with user := true, availAtClose := a.availAtClose.orElse (fun _ => some len) }
+  | .dataTrigger len => { a with slotData := some len }
+  | .errTrigger => { a with slotData := none }
+  | .slotTaken => { a with wokenBy := if a.inCall then a.slotData else none, slotData := none }
   | .panic who => { a with errs := a.errs ++ [s!"C07 panic in {who} (call {a.idx} {a.op}{a.n}{a.mode})"] }
-  | .ret idx res got _len wrs tick _slot => Id.run do
+  | .ret idx res got len wrs tick _slot => Id.run do
       let mut a := a
       if !a.inCall || a.idx != idx then
         return { a with errs := a.errs ++ [s!"C07 ret {idx} without its call"] }
@@ -87,9 +115,13 @@ def onEv (a : Acc) : Ev → Acc
         else if res == "eof" then
           if !a.peer then a := bad a "ErrEOF before any peer close"
           if a.consumed > 0 then a := bad a "a failed call consumed data"
+          -- "returns successfully once n bytes are buffered; if the connection closes FIRST it returns ErrEOF": the close
+          -- did not come first when the n bytes were already buffered at the close (and are still there: `len` = Len() at the return)
+          a := wokenThenError a "ErrEOF" len
         else if res == "closed" then
           if !a.user then a := bad a "ErrConnClosed before any local close"
           if a.consumed > 0 then a := bad a "a failed call consumed data"
+          a := wokenThenError a "ErrConnClosed" len
         else
           a := bad a s!"unexpected result {res}"
       if tick != 0 then a := bad a "the timer channel is not empty after the call"
